@@ -43,3 +43,19 @@ Definition res_eqb (a b : list out * list (list str)) : bool :=
   list_eqb out_eqb (fst a) (fst b) && list_eqb path_eqb (snd a) (snd b).
 Definition check_pipe (a : pipe_args) (exp : option (list out * list (list str))) : bool :=
   opt_eqb res_eqb (model_pipe a) exp.
+
+(** group lib: the same arguments (the extension list exactly as the caller of the library supplies it, whatever
+    the route by which it reaches the configuration; all path arguments absolute)
+    |->  the multiset of files in the result of [Linter::lint_paths] with [fix = false], and again of a second
+    call on the same linter with [fix = true] (both sorted by spelling, path) *)
+Definition model_lib (a : pipe_args) : option (list out * list out) :=
+  let '(t, exts, lines, args) := a in
+  match linted t exts (parse_lines lines) args with
+  | None => None
+  | Some outs => Some (sort_by okey outs, sort_by okey outs)
+  end.
+Definition case_t_lib : Type := (N * pipe_args * option (list out * list out))%type.
+Definition lib_eqb (a b : list out * list out) : bool :=
+  list_eqb out_eqb (fst a) (fst b) && list_eqb out_eqb (snd a) (snd b).
+Definition check_lib (a : pipe_args) (exp : option (list out * list out)) : bool :=
+  opt_eqb lib_eqb (model_lib a) exp.
